@@ -127,6 +127,14 @@ func (t *DestinationTask) Do(ctx context.Context, batch *Batch) error {
 		}
 	}
 
+	if ackCount < len(positions) {
+		// The loop reads at most one ack response per written record. A
+		// destination that answers with empty (or too small) responses leaves
+		// records without an ack; returning nil here would let them be acked
+		// to the source although the destination never confirmed them.
+		return cerrors.Errorf("received acks for only %d of %d records written to destination", ackCount, len(positions))
+	}
+
 	return nil
 }
 
